@@ -235,6 +235,9 @@ Definition rec_eqb (a b : srec) : bool := (k_cid a =? k_cid b) && (k_eni a =? k_
 
 Definition so_step (prop : Z) (ns : nat) (snaps : list (list ssnap)) (o : so) (r : list Z) : so :=
   match r with
+  | [47] =>
+      (* clause 505: the daemon could not come up again from the records it had written: everything it acknowledged is lost *)
+      so_req o false 505
   | 50 :: _ =>
       (* a DEL of the current sandbox that was being processed when the daemon died may or may not have taken
          effect (the runtime retries it): such pods are not counted as holding *)
